@@ -664,16 +664,17 @@ __offs(struct zif_s z[static 1U], stamp_t t)
 	if (LIKELY(t >= z->cache.prev && t < z->cache.next)) {
 		/* use the cached offset */
 		return z->cache.offs;
+	} else if (UNLIKELY(z->cache.prev >= z->cache.next)) {
+		/* nothing cached yet, search them all */
+		min = 0;
+		max = z->ntr;
 	} else if (t >= z->cache.next) {
 		min = z->cache.trno + 1;
 		max = z->ntr;
-	} else if (t < z->cache.prev) {
+	} else {
+		/* t < z->cache.prev */
 		max = z->cache.trno;
 		min = 0;
-	} else {
-		/* we shouldn't end up here at all */
-		min = 0;
-		max = 0;
 	}
 	return (z->cache = __find_zrng(z, t, min, max)).offs;
 }
